@@ -27,7 +27,8 @@ FAMILIES = {
     'density': dict(spec='DsSpec', emit='DsEmit',
                     invariants=['DsNonNegative', 'DsExactMass', 'DsTriangularPeak', 'DsUniformFlat']),
     'regression': dict(spec='RgSpec', emit='RgEmit', invariants=['RgShiftInvariant']),
-    'segmentation': dict(spec='SgSpec', emit='SgEmit', invariants=['SgReferenceSegment', 'SgAdditive']),
+    'segmentation': dict(spec='SgSpec', emit='SgEmit',
+                         invariants=['SgWellFormed', 'SgReferenceSegment', 'SgAdditive', 'SgSameCategory', 'SgParameterCount']),
     'nests': dict(spec='NsSpec', emit='NsEmit',
                   invariants=['NsSymmetric', 'NsUnitDiagonal', 'NsZeroAcross', 'NsWithinNest', 'NsRange', 'NsPartition']),
 }
@@ -78,7 +79,12 @@ def instance(tier: str, seed: int = 0) -> dict:
         RgSs=['1', '3/2', '1/4'] if quick else ['1', '3/2', '1/4', '5', '1/10'],
         SgMaxVars=2 if quick else 3,
         SgLevelSets=[[0, 1], [1, 2, 3], [5, 2, 9]],
-        SgShiftSeqs=[['1/4', '-1'], ['2', '1/2', '-3/4']] if quick else [['1/4', '-1'], ['3', '1/8'], ['2', '1/2', '-3/4']],
+        # category of each value: one category per value (plain), or several values in one category -- the first value's
+        # category shared (it is the default reference), a later one shared, categories not numbered in order of appearance,
+        # every value in one category (no shift parameter at all)
+        SgCatMaps=[[1, 2], [1, 1], [1, 2, 3], [1, 1, 2], [1, 2, 1], [1, 2, 2], [2, 1, 2]] + ([] if quick else [[1, 1, 1]]),
+        SgDupVars=2,
+        SgShiftSeqs=[['5/4'], ['1/4', '-1'], ['2', '1/2', '-3/4']] if quick else [['5/4'], ['1/4', '-1'], ['3', '1/8'], ['2', '1/2', '-3/4']],
         SgRefVals=['1/2'] if quick else ['1/2', '-2'],
         SgPrefixes=[1, 2],
         NsOrders=[[10, 3, 7, 5], [2, 1, 3]] if quick else [[10, 3, 7, 5, 1], [2, 4, 1, 3], [2, 1, 3]],
@@ -106,6 +112,7 @@ def module(inst: dict, name: str = 'MCHelpers') -> str:
     lines.append('G_BcSmallLs == {' + ', '.join(str(k) if k >= 0 else f'(0 - {-k})' for k in inst['BcSmallLs']) + '}')
     lines.append('G_DsDists == {' + ', '.join(f'"{d}"' for d in inst['DsDists']) + '}')
     lines.append('G_SgLevelSets == {' + ', '.join(iseq(s) for s in inst['SgLevelSets']) + '}')
+    lines.append('G_SgCatMaps == {' + ', '.join(iseq(s) for s in inst['SgCatMaps']) + '}')
     lines.append('G_SgShiftSeqs == {' + ', '.join(qseq(s) for s in inst['SgShiftSeqs']) + '}')
     lines.append('G_SgPrefixes == {' + ', '.join(str(p) for p in inst['SgPrefixes']) + '}')
     lines.append('G_NsOrders == {' + ', '.join(iseq(s) for s in inst['NsOrders']) + '}')
@@ -117,11 +124,11 @@ def module(inst: dict, name: str = 'MCHelpers') -> str:
 def cfg(inst: dict, family: str, mutation: str = 'none', emit: bool = True) -> str:
     fam = FAMILIES[family]
     defined = ['PwGrid', 'PwBetaVals', 'PwExtraXs', 'PwMargin', 'BcXs', 'BcSmallLs', 'BcLargeLs', 'DsDists', 'DsGrid', 'DsScales',
-               'DsOffsets', 'DsLogXs', 'DsMargin', 'RgYs', 'RgMs', 'RgSs', 'SgLevelSets', 'SgShiftSeqs', 'SgRefVals',
+               'DsOffsets', 'DsLogXs', 'DsMargin', 'RgYs', 'RgMs', 'RgSs', 'SgLevelSets', 'SgCatMaps', 'SgShiftSeqs', 'SgRefVals',
                'SgPrefixes', 'NsOrders', 'NsMus', 'NsTopMus', 'NsNameOrders']
     out = [f'SPECIFICATION {fam["spec"]}', 'CONSTANTS', f' Mutation = "{mutation}"']
     out += [f' {k} <- G_{k}' for k in defined]
-    for k in ('PwMaxK', 'BcDen', 'BcPairMax', 'SgMaxVars', 'NsMaxNests'):
+    for k in ('PwMaxK', 'BcDen', 'BcPairMax', 'SgMaxVars', 'SgDupVars', 'NsMaxNests'):
         out.append(f' {k} = {inst[k]}')
     out += [f'INVARIANT {i}' for i in fam['invariants']]
     if emit:
@@ -529,67 +536,117 @@ def rg_replay(r) -> dict:
 
 # ------------------------------------------------------------------------------------ segmentation
 SG_PREFIX = {1: 'segmented', 2: 'my_prefix'}
+# names of the categories: not in alphabetical order of their numbers, one a prefix of another
+SG_CAT_NAMES = {1: 'young', 2: 'adult', 3: 'adult_senior'}
 
 
 def sg_groups(recs):
     groups: dict = {}
     for r in recs:
-        key = (tuple(r['ref']), r['prefix'], tuple((tuple(s['vals']), s['refpos'], tuple(tuple(x) for x in s['shifts'])) for s in r['segs']))
+        key = (tuple(r['ref']), r['prefix'],
+               tuple((tuple(s['vals']), tuple(s['cats']), s['refcat'], tuple(tuple(x) for x in s['shifts'])) for s in r['segs']))
         groups.setdefault(key, []).append(r)
     return list(groups.values())
 
 
-def sg_replay(group) -> dict:
-    import biogeme.expressions as ex
-    from biogeme.expressions import Beta, Variable
-    from biogeme.segmentation import DiscreteSegmentationTuple, Segmentation, segmented_beta
+def sg_many_to_one(segs) -> bool:
+    return any(len(set(s['cats'])) < len(s['cats']) for s in segs)
 
+
+def sg_cat_name(k: int, q: int) -> str:
+    """Name of category q of the (k+1)-th variable."""
+    return f'v{k + 1}_{SG_CAT_NAMES[int(q)]}'
+
+
+def sg_replay(group, patch=None) -> dict:
+    """`patch` (negative controls) is called once before the objects are built; it may replace classes of
+    biogeme.segmentation in this (forked) process."""
+    import biogeme.expressions as ex
+    import biogeme.segmentation as sgm
+    from biogeme.expressions import Beta, Variable
+
+    if patch:
+        patch(sgm)
     r0 = group[0]
     segs = r0['segs']
     ref = fr(r0['ref'])
     prefix = SG_PREFIX[r0['prefix']]
     mism = []
     n = 0
-    f = dict(family='segmentation', kind='value', variables=len(segs))
+    dup = sg_many_to_one(segs)
+    f = dict(family='segmentation', kind='value', variables=len(segs), many_to_one=dup,
+             reference_shared=any(s['refcat'] and list(s['cats']).count(s['refcat']) > 1 for s in segs),
+             single_category=any(len(set(s['cats'])) == 1 for s in segs))
 
     def tuples():
         out = []
         for k, s in enumerate(segs):
-            mapping = {int(v): f'v{k + 1}_is_{v}' for v in s['vals']}
-            reference = None if s['refpos'] == 0 else mapping[int(s['vals'][s['refpos'] - 1])]
+            # value -> name of its category; several values may carry the same name
+            mapping = {int(v): sg_cat_name(k, q) for v, q in zip(s['vals'], s['cats'])}
+            reference = None if s['refcat'] == 0 else sg_cat_name(k, s['refcat'])
             var = Variable(f'v{k + 1}') if k % 2 == 0 else f'v{k + 1}'  # the variable or its name
-            out.append(DiscreteSegmentationTuple(var, mapping, reference=reference))
+            out.append(sgm.DiscreteSegmentationTuple(var, mapping, reference=reference))
         return out
 
     beta = Beta('asc', 0.25, -10, 10, 0)
     tps = tuples()
-    seg = Segmentation(beta, tps, prefix=prefix)
+    seg = sgm.Segmentation(beta, tps, prefix=prefix)
     # which reference did the library settle on (its public attribute)?  must be a category of the variable
     refs = []
     for k, (s, t) in enumerate(zip(segs, tps)):
-        cats = [f'v{k + 1}_is_{v}' for v in s['vals']]
+        cats = {sg_cat_name(k, q): int(q) for q in s['cats']}
         if t.reference not in cats:
-            mism.append(dict(key='segmentation:reference', facts=dict(f, kind='reference'), detail=dict(reference=t.reference, categories=cats)))
-            return dict(n=0, mism=mism, cases=len(group))
-        refs.append(cats.index(t.reference) + 1)
-        if s['refpos'] and refs[-1] != s['refpos']:
+            mism.append(dict(key='segmentation:reference', facts=dict(f, kind='reference'), detail=dict(reference=t.reference, categories=sorted(cats))))
+            return dict(n=0, mism=mism, cases=len(group), kind='refused')
+        refs.append(cats[t.reference])
+        if s['refcat'] and refs[-1] != s['refcat']:
             mism.append(dict(key='segmentation:reference', facts=dict(f, kind='reference'),
-                             detail=dict(reference=t.reference, wanted=cats[s['refpos'] - 1])))
-    # parameter values: the reference value and one shift per non-reference category (named by the library)
+                             detail=dict(reference=t.reference, wanted=sg_cat_name(k, s['refcat']))))
+    want0 = [x for x in r0['expected'] if list(x['refs']) == refs]
+    if len(want0) != 1:
+        raise RuntimeError(f'no expectation for references {refs}')
+    # parameter values: the reference value and ONE shift per non-reference category (the specification lists them;
+    # the names are the library's public naming).  beta_name refuses the reference category, so it is not asked for it.
     bdict = {'asc': float(ref)}
-    for k, (s, one) in enumerate(zip(segs, seg.segmentations)):
-        for j, v in enumerate(s['vals']):
-            if j + 1 != refs[k]:
-                bdict[one.beta_name(f'v{k + 1}_is_{v}')] = float(fr(s['shifts'][j]))
+    for k, q in want0[0]['params']:
+        k, q = int(k) - 1, int(q)
+        st, name = _try(lambda: seg.segmentations[k].beta_name(sg_cat_name(k, q)))
+        if st != 'ok':
+            mism.append(dict(key='segmentation:parameters', facts=dict(f, kind='parameters'),
+                             detail=dict(error=name, category=sg_cat_name(k, q), mappings=[dict(zip(s['vals'], s['cats'])) for s in segs])))
+            return dict(n=0, mism=mism, cases=len(group), kind='refused')
+        bdict[name] = float(fr(segs[k]['shifts'][q - 1]))
     rows = [[int(segs[k]['vals'][r['row'][k] - 1]) for k in range(len(segs))] for r in group]
     d = _db({f'v{k + 1}': [row[k] for row in rows] for k in range(len(segs))})
-    show = dict(reference_value=str(ref), parameters=bdict, mappings=[s['vals'] for s in segs], references=refs)
+    show = dict(reference_value=str(ref), parameters=bdict,
+                mappings=[{int(v): sg_cat_name(k, q) for v, q in zip(s['vals'], s['cats'])} for k, s in enumerate(segs)],
+                references=[sg_cat_name(k, q) for k, q in enumerate(refs)], references_given=[bool(s['refcat']) for s in segs])
     sample = None
-    exprs = [('Segmentation.segmented_beta', seg.segmented_beta()), ('segmented_beta()', segmented_beta(Beta('asc', 0.25, -10, 10, 0), tuples(), prefix=prefix))]
+    exprs = [('Segmentation.segmented_beta', seg.segmented_beta()),
+             ('segmented_beta()', sgm.segmented_beta(Beta('asc', 0.25, -10, 10, 0), tuples(), prefix=prefix))]
+    if all(s['refcat'] for s in segs):
+        # the tuples as the database generates them from the same mapping (documented: names for the values of the column)
+        def generated():
+            return [d.generate_segmentation(variable=t.variable if k % 2 else t.variable.name, mapping=dict(t.mapping), reference=t.reference)
+                    for k, t in enumerate(tps)]
+
+        st, gen = _try(generated)
+        if st != 'ok':
+            mism.append(dict(key='segmentation:generate', facts=dict(f, kind='generate'), detail=dict(show, error=gen)))
+        else:
+            exprs.append(('Database.generate_segmentation + segmented_beta()', sgm.segmented_beta(Beta('asc', 0.25, -10, 10, 0), gen, prefix=prefix)))
     code = seg.segmented_code()
     ns = {k_: getattr(ex, k_) for k_ in ('Beta', 'Variable', 'bioMultSum', 'Numeric')}
-    st, err = _try(lambda: exec(code, ns))
     target = f'{prefix}_asc'
+    lines = [ln for ln in code.split('\n') if ln.strip()]
+
+    def run_code():
+        exec(code, ns)
+        if target not in ns and len(bdict) == 1 and lines and '=' not in lines[-1].split('(')[0]:
+            # no category but the reference: the generated code is the bare parameter (an expression, nothing is assigned)
+            ns[target] = eval(lines[-1], ns)
+
+    st, err = _try(run_code)
     if st != 'ok' or target not in ns:
         mism.append(dict(key='segmentation:code', facts=dict(f, kind='code'), detail=dict(show, code=code, error=err if st != 'ok' else f'{target} not defined')))
     else:
@@ -609,7 +666,33 @@ def sg_replay(group) -> dict:
             _cmp(mism, 'segmentation:value', f, v[i], float(fr(want[0]['value'])), TOL_EXACT, how=how, row=rows[i], **show)
             if i == 0:
                 sample = dict(family='segmentation', **show, row=rows[0], code=code, expected=str(fr(want[0]['value'])), observed=float(v[0]), how=how)
-    return dict(n=n, mism=mism, cases=len(group), sample=sample)
+    # what the library documents about a segmentation and the data: verify_segmentation accepts a mapping that covers
+    # exactly the values of the column
+    if len(group) >= max(len(s['vals']) for s in segs):
+        for k, (s, t) in enumerate(zip(segs, tps)):
+            if {row[k] for row in rows} == {int(v) for v in s['vals']}:
+                st, err = _try(lambda: d.verify_segmentation(t))
+                n += 1
+                if st != 'ok':
+                    mism.append(dict(key='segmentation:verify', facts=dict(f, kind='verify'), detail=dict(show, variable=k + 1, error=err)))
+    kind = ('one category per value' if not dup else
+            'many-to-one, reference category shared by several values' if any(list(s['cats']).count(rc) > 1 for s, rc in zip(segs, refs))
+            else 'many-to-one, a non-reference category shared by several values')
+    return dict(n=n, mism=mism, cases=len(group), sample=sample, many_to_one=dup, kind=kind)
+
+
+def buggy_segmentation_patch(sgm):
+    """A OneSegmentation that keeps ONE value per category (the mapping inverted category -> value and back): the other
+    values of a shared category get no shift -- negative control only, built from the real class."""
+    real = sgm.OneSegmentation
+
+    class OneValuePerCategory(real):
+        def __init__(self, beta, segmentation_tuple):
+            super().__init__(beta, segmentation_tuple)
+            inverted = {cat: value for value, cat in self.mapping.items()}
+            self.mapping = {value: cat for cat, value in inverted.items()}
+
+    sgm.OneSegmentation = OneValuePerCategory
 
 
 # ------------------------------------------------------------------------------------ nests
